@@ -127,6 +127,106 @@ Proof.
   unfold browser_service_timeout. destruct (nth_error (w_browsers w) j); [|constructor]. destruct (b_ptr_targets b); repeat constructor.
 Qed.
 
+(* ---- the number of browsers changes only when one is created ---- *)
+Lemma replace_nth_length {A} (l : list A) j x y : nth_error l j = Some y -> length (replace_nth j x l) = length l.
+Proof.
+  unfold replace_nth. revert j. induction l as [|a l IH]; intros [|j] H; cbn in *; try discriminate; [reflexivity|].
+  f_equal. apply IH, H.
+Qed.
+Lemma slots_for_len ci sg v : forall bs j0, length (fst (slots_for ci sg v j0 bs)) = length bs.
+Proof.
+  induction bs as [|b bs IH]; intro j0; cbn [slots_for]; [reflexivity|].
+  destruct (if Nat.eqb (b_cache b) ci then _ else _) as [b' e]. specialize (IH (S j0)). destruct (slots_for ci sg v (S j0) bs) as [bs'' e'].
+  cbn [fst length] in *. f_equal. exact IH.
+Qed.
+Lemma deliver_signals_len ci : forall sgs bs, length (fst (deliver_signals ci sgs bs)) = length bs.
+Proof.
+  induction sgs as [|[sg v] sgs IH]; intro bs; cbn [deliver_signals]; [reflexivity|].
+  pose proof (slots_for_len ci sg v bs 0%nat) as H. destruct (slots_for ci sg v 0 bs) as [bs1 e1].
+  specialize (IH bs1). destruct (deliver_signals ci sgs bs1) as [bs2 e2]. cbn [fst] in *. congruence.
+Qed.
+Definition nb (w : world) : nat := length (w_browsers w).
+Lemma world_cache_add_len now ci r w : nb (fst (world_cache_add now ci r w)) = nb w.
+Proof.
+  unfold world_cache_add, nb. destruct (nth_error (w_caches w) ci) as [c|]; [|reflexivity].
+  destruct (add now (w_jitter w) r c) as [c' sgs].
+  pose proof (deliver_signals_len ci sgs (w_browsers w)) as D. destruct (deliver_signals ci sgs (w_browsers w)) as [bs es]. exact D.
+Qed.
+Lemma world_cache_timeout_len now ci w : nb (fst (world_cache_timeout now ci w)) = nb w.
+Proof.
+  unfold world_cache_timeout, nb. destruct (nth_error (w_caches w) ci) as [c|]; [|reflexivity].
+  destruct (on_timeout now (mkCache (c_entries c) (c_next c) None)) as [c' sgs].
+  pose proof (deliver_signals_len ci sgs (w_browsers w)) as D. destruct (deliver_signals ci sgs (w_browsers w)) as [bs es]. exact D.
+Qed.
+Lemma browser_cache_records_len now j : forall rs nms nulls w, nb (fst (fst (fst (browser_cache_records now j rs nms nulls w)))) = nb w.
+Proof.
+  induction rs as [|r rs IH]; intros nms nulls w; cbn [browser_cache_records]; [reflexivity|].
+  destruct (nth_error (w_browsers w) j) as [b|] eqn:Nb; [|reflexivity].
+  destruct (if (r_type r =? T_PTR)%N then _ else _) as [[keep upd] tgt].
+  assert (H1 : nb (fst (match tgt with
+            | Some t => (mkWorld (w_caches w) (replace_nth j (mkBrowser (b_type b) (b_cache b) (b_services b) (b_hostnames b)
+                                   (set_insert (bs_data t) (b_ptr_targets b))) (w_browsers w)) (w_jitter w),
+                         [EStart (T_SERVICE_OF j) service_batch_ms])
+            | None => (w, []) end)) = nb w).
+  { destruct tgt; [|reflexivity]. unfold nb. cbn [fst w_browsers]. eapply replace_nth_length, Nb. }
+  destruct (match tgt with Some t => _ | None => _ end) as [w1 e1].
+  assert (H2 : nb (fst (if keep then world_cache_add now (b_cache b) r w1 else (w1, []))) = nb w1).
+  { destruct keep; [apply world_cache_add_len|reflexivity]. }
+  destruct (if keep then _ else _) as [w2 e2].
+  match goal with |- context [browser_cache_records now j rs ?n ?l w2] =>
+    specialize (IH n l w2); destruct (browser_cache_records now j rs n l w2) as [[[w3 nm] nl] e3] end.
+  cbn [fst] in *. congruence.
+Qed.
+Lemma browser_update_names_len j nulls : forall nms w queries, nb (fst (fst (browser_update_names j nms nulls w queries))) = nb w.
+Proof.
+  induction nms as [|n nms IH]; intros w queries; cbn [browser_update_names]; [reflexivity|].
+  destruct (nth_error (w_browsers w) j) as [b|] eqn:Nb; [|reflexivity].
+  match goal with |- context [update_service j ?v ?fq b] => destruct (update_service j v fq b) as [[need b'] es] end.
+  match goal with |- context [browser_update_names j nms nulls ?w1 ?q1] =>
+    specialize (IH w1 q1); destruct (browser_update_names j nms nulls w1 q1) as [[w'' qs] es'] end.
+  cbn [fst] in *. rewrite IH. unfold nb. cbn [w_browsers]. eapply replace_nth_length, Nb.
+Qed.
+Lemma browser_cache_addresses_len now j : forall rs w, nb (fst (browser_cache_addresses now j rs w)) = nb w.
+Proof.
+  induction rs as [|r rs IH]; intro w; cbn [browser_cache_addresses]; [reflexivity|].
+  destruct (nth_error (w_browsers w) j) as [b|]; [|reflexivity].
+  assert (H1 : nb (fst (if ((r_type r =? T_A)%N || (r_type r =? T_AAAA)%N) && set_mem (bs_data (r_name r)) (b_hostnames b)
+                        then world_cache_add now (b_cache b) r w else (w, []))) = nb w).
+  { destruct (_ && _); [apply world_cache_add_len|reflexivity]. }
+  destruct (if ((r_type r =? T_A)%N || (r_type r =? T_AAAA)%N) && set_mem (bs_data (r_name r)) (b_hostnames b) then _ else _) as [w1 e1].
+  specialize (IH w1). destruct (browser_cache_addresses now j rs w1) as [w2 e2]. cbn [fst] in *. congruence.
+Qed.
+Lemma browser_on_message_len now j m w : nb (fst (browser_on_message now j m w)) = nb w.
+Proof.
+  unfold browser_on_message. destruct (negb (m_response m)); [reflexivity|].
+  pose proof (browser_cache_records_len now j (m_records m) [] false w) as H1.
+  destruct (browser_cache_records now j (m_records m) [] false w) as [[[w1 nms] nulls] e1].
+  pose proof (browser_update_names_len j nulls nms w1 []) as H2.
+  destruct (browser_update_names j nms nulls w1 []) as [[w2 qnames] e2].
+  pose proof (browser_cache_addresses_len now j (m_records m) w2) as H3.
+  destruct (browser_cache_addresses now j (m_records m) w2) as [w3 e3]. cbn [fst] in *. congruence.
+Qed.
+Lemma all_browsers_len now m : forall n j w, nb (fst (all_browsers_on_message now j n m w)) = nb w.
+Proof.
+  induction n as [|n IH]; intros j w; cbn [all_browsers_on_message]; [reflexivity|].
+  pose proof (browser_on_message_len now j m w) as H1. destruct (browser_on_message now j m w) as [w1 e1].
+  specialize (IH (S j) w1). destruct (all_browsers_on_message now (S j) n m w1) as [w2 e2]. cbn [fst] in *. congruence.
+Qed.
+Lemma service_timeout_len j w : nb (fst (browser_service_timeout j w)) = nb w.
+Proof.
+  unfold browser_service_timeout. destruct (nth_error (w_browsers w) j) eqn:Nb; [|reflexivity]. destruct (b_ptr_targets b); [reflexivity|].
+  unfold nb. cbn [fst w_browsers]. eapply replace_nth_length, Nb.
+Qed.
+Lemma world_handle_len now w ev :
+  match ev with EvApi (BNewBrowser _ _) => False | _ => True end -> nb (fst (world_handle now w ev)) = nb w.
+Proof.
+  intro H. destruct ev as [m|tid|a]; cbn [world_handle].
+  - apply all_browsers_len.
+  - destruct (tid mod 3 =? 0)%N; [apply world_cache_timeout_len|]. destruct (tid mod 3 =? 1)%N; [reflexivity|apply service_timeout_len].
+  - destruct a as [|ty co|jt|ci r jt|ci n ty]; try reflexivity; [destruct H|].
+    pose proof (world_cache_add_len now ci r (mkWorld (w_caches w) (w_browsers w) jt)) as L. exact L.
+Qed.
+
 (* ---- timers under apply_effs ---- *)
 Lemma tm_remove_in tid (tm : timers) x : fst (fst x) <> tid -> (In x (tm_remove tid tm) <-> In x tm).
 Proof.
@@ -163,7 +263,7 @@ Section Q.
 
   Definition QInv (s : sim world) (g : option Z) : Prop :=
     match g with
-    | None => True
+    | None => (nb (s_st s) <= j)%nat
     | Some t =>
         (exists b, nth_error (w_browsers (s_st s)) j = Some b) /\
         (exists d sq, In (TQ, d, sq) (s_tm s)) /\
@@ -177,17 +277,26 @@ Section Q.
     destruct S as [S _]. destruct (S j b H) as (b' & N' & _). exists b'. exact N'.
   Qed.
 
+  Lemma dispatch_st (s : sim world) ev : s_st (fst (dispatch world bapi world_handle s ev)) = fst (world_handle (s_now s) (s_st s) ev).
+  Proof.
+    unfold dispatch. destruct (world_handle (s_now s) (s_st s) ev) as [w' es].
+    destruct (apply_effs (s_now s) (s_tm s) (s_seq s) es) as [[tm' sq'] o]. reflexivity.
+  Qed.
+
   Lemma QInv_free (s : sim world) g ev :
+    (g = None -> match ev with EvApi (BNewBrowser _ _) => False | _ => True end) ->
     tfree TQ (snd (world_handle (s_now s) (s_st s) ev)) -> QInv s g ->
     QInv (fst (dispatch world bapi world_handle s ev)) g.
   Proof.
-    intros F I. destruct g as [t|]; [|exact I]. destruct I as ((b & Nb) & (d & sq & Hin) & Hall & Ht).
+    intros Hev F I. destruct g as [t|].
+    2:{ cbn [QInv] in *. rewrite dispatch_st, world_handle_len; [exact I|apply Hev; reflexivity]. }
+    destruct I as ((b & Nb) & (d & sq & Hin) & Hall & Ht).
     unfold dispatch. pose proof (exists_preserved (s_now s) (s_st s) ev b Nb) as E.
     destruct (world_handle (s_now s) (s_st s) ev) as [w' es]. cbn [fst snd] in *.
     pose proof (apply_effs_keep TQ (s_now s) es (s_tm s) (s_seq s) F) as K.
     destruct (apply_effs (s_now s) (s_tm s) (s_seq s) es) as [[tm' sq'] o]. cbn [fst snd s_st s_tm s_now] in *.
     split; [exact E|]. split; [exists d, sq; apply (K (TQ, d, sq) eq_refl); exact Hin|].
-    split; [|exact Ht]. intros d' sq' H. apply (Hall d' sq'). apply (K (TQ, d', sq') eq_refl). exact H.
+    split; [|exact Ht]. intros d' sq2 H. apply (Hall d' sq2). apply (K (TQ, d', sq2) eq_refl). exact H.
   Qed.
 
   Lemma query_timeout_other j' w : j' <> j -> tfree TQ (browser_query_timeout j' w).
@@ -212,12 +321,12 @@ Section Q.
   Theorem query_timer_invariant s g : kreach world bapi (option Z) world_handle qstep w0 None s g -> QInv s g.
   Proof.
     induction 1 as [|s g t _ I Ht|s g ev _ I Hev|s g tid d sq _ I Hin Hd].
-    - exact I.
+    - cbn. lia.
     - destruct g as [t0|]; [|exact I]. destruct I as (A & B & C & D). cbn [QInv s_st s_tm s_now]. repeat split; auto. lia.
     - destruct ev as [m|tid|a]; [|destruct Hev|].
-      + cbn [qstep]. apply QInv_free; [|exact I]. apply qfree_tfree. cbn [world_handle]. apply all_browsers_qfree.
+      + cbn [qstep]. apply QInv_free; [intros _; exact Logic.I|apply qfree_tfree; cbn [world_handle]; apply all_browsers_qfree|exact I].
       + destruct a as [|ty co|jt|ci r jt|ci n ty]; cbn [qstep].
-        * apply QInv_free; [|exact I]. constructor.
+        * apply QInv_free; [intros _; exact Logic.I|constructor|exact I].
         * destruct (Nat.eqb (length (w_browsers (s_st s))) j) eqn:E.
           -- apply Nat.eqb_eq in E. unfold dispatch. cbn [world_handle].
              destruct co as [ci|].
@@ -233,13 +342,20 @@ Section Q.
                 unfold browser_query_timeout. rewrite E, Nb.
                 match goal with |- context [ESendAll ?m] => pose proof (QInv_armed (s_now s) (s_tm s) (s_seq s) (s_st s) w' _ m Nb) as A end.
                 fold TQ. destruct (apply_effs (s_now s) (s_tm s) (s_seq s) _) as [[tm' sq'] o]. exact A.
-          -- apply Nat.eqb_neq in E. apply QInv_free; [|exact I]. cbn [world_handle].
-             destruct co as [ci|]; cbn [snd]; apply query_timeout_other; congruence.
-        * apply QInv_free; [|exact I]. constructor.
-        * apply QInv_free; [|exact I]. apply qfree_tfree. cbn [world_handle]. apply world_cache_add_qfree.
-        * apply QInv_free; [|exact I]. repeat constructor.
+          -- apply Nat.eqb_neq in E. destruct g as [t|].
+             ++ apply QInv_free; [discriminate| |exact I]. cbn [world_handle].
+                destruct co as [ci|]; cbn [snd]; apply query_timeout_other; congruence.
+             ++ cbn [QInv] in *. rewrite dispatch_st. cbn [world_handle]. unfold nb in *.
+                destruct co as [ci|]; cbn [fst w_browsers]; rewrite app_length; cbn [length]; lia.
+        * apply QInv_free; [intros _; exact Logic.I|constructor|exact I].
+        * apply QInv_free; [intros _; exact Logic.I|apply qfree_tfree; cbn [world_handle]; apply world_cache_add_qfree|exact I].
+        * apply QInv_free; [intros _; exact Logic.I|repeat constructor|exact I].
     - (* a timer fires *)
       set (s1 := mkSim (s_now s) (tm_remove tid (s_tm s)) (s_seq s) (s_st s)).
+      assert (I1 : tid <> TQ -> QInv s1 g).
+      { intro E. destruct g as [t|]; [|exact I]. destruct I as (A & (d0 & sq0 & B) & C & D). unfold s1. cbn [QInv s_st s_tm s_now].
+        split; [exact A|]. split; [exists d0, sq0; apply tm_remove_in; [cbn; congruence|exact B]|]. split; [|exact D].
+        intros d' sq' H. apply (C d' sq'). apply tm_remove_in in H; [exact H|cbn; congruence]. }
       cbn [qstep]. destruct (tid =? TQ)%N eqn:E.
       + apply N.eqb_eq in E. subst tid.
         destruct (nth_error (w_browsers (s_st s)) j) as [b|] eqn:Nb.
@@ -250,16 +366,45 @@ Section Q.
           unfold browser_query_timeout. rewrite Nb.
           match goal with |- context [ESendAll ?m] => pose proof (QInv_armed (s_now s) (tm_remove TQ (s_tm s)) (s_seq s) (s_st s) (s_st s) _ m Nb) as A end.
           fold TQ. destruct (apply_effs (s_now s) (tm_remove TQ (s_tm s)) (s_seq s) _) as [[tm' sq'] o]. exact A.
-        * destruct g as [t|]; [|exact I]. destruct I as ((b & Nb') & _). congruence.
-      + apply N.eqb_neq in E.
-        assert (I1 : QInv s1 g).
-        { destruct g as [t|]; [|exact I]. destruct I as (A & (d0 & sq0 & B) & C & D). unfold s1. cbn [QInv s_st s_tm s_now].
-          split; [exact A|]. split; [exists d0, sq0; apply tm_remove_in; [cbn; congruence|exact B]|]. split; [|exact D].
-          intros d' sq' H. apply (C d' sq'). apply tm_remove_in in H; [exact H|cbn; congruence]. }
+        * destruct g as [t|]; [destruct I as ((b & Nb') & _); congruence|].
+          cbn [QInv] in *. rewrite dispatch_st, world_handle_len; [exact I|exact Logic.I].
+      + apply N.eqb_neq in E. specialize (I1 E).
         change (s_now s) with (s_now s1). change (s_st s) with (s_st s1).
-        apply QInv_free; [|exact I1]. cbn [s1 s_now s_st world_handle].
+        apply QInv_free; [intros _; exact Logic.I| |exact I1]. cbn [s1 s_now s_st world_handle].
         destruct (tid mod 3 =? 0)%N eqn:M0; [apply qfree_tfree, world_cache_timeout_qfree|].
         destruct (tid mod 3 =? 1)%N eqn:M1; [|apply qfree_tfree, service_timeout_qfree].
         cbn [snd]. apply query_timeout_other. intro X. apply E. unfold TQ, T_QUERY_OF. lia.
   Qed.
+
+  (* what firing the timer does: the browse question with the known answers, and the timer again one period ahead *)
+  Lemma query_timer_fires w b :
+    nth_error (w_browsers w) j = Some b ->
+    exists m, snd (world_handle 0 w (EvTimer TQ)) = [ESendAll m; EStart TQ browse_period_ms] /\
+      m_response m = false /\ m_queries m = [mkQuery (b_type b) T_PTR false] /\
+      m_records m = lookup_view (b_type b) T_PTR (match nth_error (w_caches w) (b_cache b) with Some c => view_of c | None => [] end).
+  Proof.
+    intro Nb. cbn [world_handle].
+    replace (TQ mod 3 =? 0)%N with false by (unfold TQ, T_QUERY_OF; lia).
+    replace (TQ mod 3 =? 1)%N with true by (unfold TQ, T_QUERY_OF; lia).
+    replace (N.to_nat (TQ / 3)) with j by (unfold TQ, T_QUERY_OF; lia). cbn [snd].
+    exact (query_timeout_spec j w b Nb).
+  Qed.
+
+  (* every script of the executable model *)
+  Theorem query_timer_invariant_runs fuel ops :
+    exists g, QInv (state_after world bapi world_handle fuel w0 ops) g.
+  Proof.
+    destruct (run_kreach world bapi (option Z) world_handle qstep w0 None fuel ops) as [g R].
+    exists g. apply query_timer_invariant, R.
+  Qed.
 End Q.
+
+(* a refresh warning of cache ci reaches every browser attached to that cache, in creation order: each asks for the
+   record's name and type; nothing else happens *)
+Lemma should_query_slots ci r v : forall bs j0,
+  slots_for ci (ShouldQuery r) v j0 bs =
+  (bs, concat (map (fun b => if Nat.eqb (b_cache b) ci then on_should_query r else []) bs)).
+Proof.
+  induction bs as [|b bs IH]; intro j0; cbn [slots_for map concat]; [reflexivity|].
+  rewrite (IH (S j0)). destruct (Nat.eqb (b_cache b) ci); reflexivity.
+Qed.
